@@ -88,6 +88,8 @@ type Model struct {
 	markers  map[string]class // registered (completed) markers
 	pending  map[string]pos   // forward references: strongest constraint seen
 	dead     bool
+	// Reason names the rule behind the most recent Reject verdict (used in violation signatures)
+	Reason string
 }
 
 func New(cfg Config) *Model {
@@ -227,6 +229,7 @@ func (m *Model) childDone(c class, key string, hasKey bool) Verdict {
 	case fMap:
 		if f.n%2 == 0 && hasKey {
 			if f.keys[key] {
+				m.Reason = "duplicate-key"
 				return Reject
 			}
 			f.keys[key] = true
@@ -235,6 +238,7 @@ func (m *Model) childDone(c class, key string, hasKey bool) Verdict {
 	case fRecType:
 		if hasKey {
 			if f.keys[key] {
+				m.Reason = "duplicate-key"
 				return Reject
 			}
 			f.keys[key] = true
@@ -246,6 +250,7 @@ func (m *Model) childDone(c class, key string, hasKey bool) Verdict {
 		v := Accept
 		if _, dup := m.markers[f.name]; dup {
 			if !m.cfg.LaxMarkers {
+				m.Reason = "duplicate-marker-id"
 				return Reject
 			}
 			v = Either
@@ -258,6 +263,7 @@ func (m *Model) childDone(c class, key string, hasKey bool) Verdict {
 				v = Either
 			case Reject:
 				if con == posKeyable && !m.cfg.LaxMarkers {
+					m.Reason = "forward-key-reference-to-non-keyable"
 					return Reject
 				}
 				v = Either // reference to a null target in an edge: not fixed by the statement
@@ -406,9 +412,13 @@ func (m *Model) Step(e ev.E) Verdict {
 	if m.dead {
 		return Reject
 	}
+	m.Reason = ""
 	v := m.step(e)
 	if v == Reject {
 		m.dead = true
+		if m.Reason == "" {
+			m.Reason = "structure"
+		}
 	}
 	return v
 }
@@ -433,6 +443,7 @@ func (m *Model) step(e ev.E) Verdict {
 		}
 		m.phase = 4
 		if len(m.pending) > 0 {
+			m.Reason = "unresolved-reference"
 			return m.lax(Reject)
 		}
 		return Accept
@@ -577,6 +588,7 @@ func (m *Model) step(e ev.E) Verdict {
 				v = Either
 			case Reject:
 				if con == posKeyable && !m.cfg.LaxMarkers {
+					m.Reason = "key-reference-to-non-keyable"
 					return Reject
 				}
 				v = Either
@@ -639,9 +651,11 @@ func (m *Model) step(e ev.E) Verdict {
 			return Reject
 		}
 		if e.K == ev.Array && !isStringLike(e.AT) && uint64(len(e.Data)) != elemBytes(e.AT, e.U) {
+			m.Reason = "byte-count-mismatch"
 			return Reject
 		}
 		if isStringLike(e.AT) && !utf8.Valid(e.Data) {
+			m.Reason = "invalid-utf8"
 			return Reject
 		}
 		k, hk := arrayKey(e.AT, e.Data)
@@ -652,6 +666,7 @@ func (m *Model) step(e ev.E) Verdict {
 			return Reject
 		}
 		if !utf8.ValidString(e.S) {
+			m.Reason = "invalid-utf8-media-type"
 			return Reject
 		}
 		return m.childDone(clOther, "", false)
@@ -665,6 +680,7 @@ func (m *Model) step(e ev.E) Verdict {
 			return Reject
 		}
 		if !utf8.Valid(e.Data) {
+			m.Reason = "invalid-utf8"
 			return Reject
 		}
 		return m.childDone(clOther, "", false)
@@ -675,6 +691,7 @@ func (m *Model) step(e ev.E) Verdict {
 		case ev.MediaBegin:
 			at = events.ArrayTypeMedia
 			if !utf8.ValidString(e.S) {
+				m.Reason = "invalid-utf8-media-type"
 				return Reject
 			}
 		case ev.CustomBegin:
@@ -755,30 +772,34 @@ func (m *Model) keyFrame() *frame {
 
 func (m *Model) stepChunk(f *frame, e ev.E) Verdict {
 	if f.inChunk {
+		m.Reason = "chunk-header-inside-open-chunk"
 		return Reject
 	}
 	f.sawChunk = true
 	n := elemBytes(f.at, e.U)
+	v := Accept
 	if f.at == events.ArrayTypeBit && e.B && e.U%8 != 0 {
-		return Either // non-final bit chunk not a multiple of 8: outside the statement
+		v = Either // non-final bit chunk not a multiple of 8: outside the statement
 	}
 	if n == 0 {
 		if e.B {
-			return Accept
+			return v
 		}
 		return m.finishArray(f)
 	}
 	f.inChunk = true
 	f.more = e.B
 	f.remaining = n
-	return Accept
+	return v
 }
 
 func (m *Model) stepData(f *frame, e ev.E) Verdict {
 	if !f.inChunk {
+		m.Reason = "data-outside-chunk"
 		return Reject
 	}
 	if uint64(len(e.Data)) > f.remaining {
+		m.Reason = "data-exceeds-declared-chunk-length"
 		return Reject
 	}
 	f.remaining -= uint64(len(e.Data))
@@ -797,8 +818,15 @@ func (m *Model) stepData(f *frame, e ev.E) Verdict {
 	}
 	f.inChunk = false
 	if isStringLike(f.at) {
-		if f.badUTF8 || !utf8.Valid(f.content) {
-			// chunk ends inside a character, or invalid content complete
+		if f.badUTF8 {
+			if !f.more {
+				m.Reason = "invalid-utf8"
+				return Reject
+			}
+			return Either
+		}
+		if !utf8.Valid(f.content) {
+			m.Reason = "chunk-ends-inside-character"
 			return Reject
 		}
 	}
@@ -810,6 +838,7 @@ func (m *Model) stepData(f *frame, e ev.E) Verdict {
 
 func (m *Model) finishArray(f *frame) Verdict {
 	if isStringLike(f.at) && !utf8.Valid(f.content) {
+		m.Reason = "invalid-utf8"
 		return Reject
 	}
 	m.stack = m.stack[:len(m.stack)-1]
